@@ -388,11 +388,39 @@ func c16Scenario(c *Ctx, idx int, r *Rng) (mline, mimpl, mcase string) {
 			// make sure there is something to push: touch one or two files (chmod +w as a user who ignores locks would)
 			var touch []string
 			reverted := map[string]bool{}
+			if r.Chance(35) {
+				// the other user takes a lock just before this push
+				bf := Pick(r, lockables)
+				if _, held := table()[bf]; !held {
+					srv.mu.Lock()
+					srv.nextLock++
+					srv.locks = append(srv.locks, lfsLock{ID: fmt.Sprintf("B%d", srv.nextLock), Path: bf, Owner: "bob"})
+					srv.mu.Unlock()
+					log("bob locks %q", bf)
+					mops = append(mops, fmt.Sprintf("O:%d:5", pidx[bf]))
+					observe()
+				}
+			}
+			var bobs []string
+			for _, lf := range lockables {
+				if table()[lf] == "bob" {
+					bobs = append(bobs, lf)
+				}
+			}
 			for k := 0; k < 1+r.Intn(2); k++ {
 				g := Pick(r, append(append([]string(nil), lockables...), "n.bin"))
+				if len(bobs) > 0 && r.Chance(50) {
+					g = Pick(r, bobs) // the clause under test: a push that modifies a path the other user has locked
+				}
 				p := filepath.Join(w.dir, g)
 				os.Chmod(p, 0o644)
 				nb := r.Bytes(30 + op)
+				if strings.HasSuffix(g, ".txt") && r.Chance(60) {
+					// a lockable file that is NOT stored in LFS: its blob goes through the scanner's plain-blob
+					// stages, whose size cutoff (1024 bytes) separates two code paths
+					nb = r.Bytes(Pick(r, []int{1023, 1024, 1025, 3000, 70000}))
+					c.R.Count("push.non-lfs-lockable-big")
+				}
 				if old := versions[g]; len(old) >= 2 && r.Chance(25) {
 					nb = old[0] // back to a version the remote already has (D27: the blob is not listed as new)
 					reverted[g] = true
